@@ -38,9 +38,11 @@ BOUNDS_TEXT = ("s-expressions from a menu: 14 node kinds (module, class, functio
                "1 = root + first child, 2 = root + second child, 3 = depth 2 chain root -> first child -> its "
                "first child, 4 = root + both children, 5 = root -> first child -> its second child; quick: shapes "
                "0-2 for every configuration and shape 3 for the configuration that allows most (1); thorough: "
-               "shapes 0-5 everywhere; 4 SecurityOptions configurations; round trip of 4 object graphs "
-               "(shared reference, list cycle, instance cycle, nested containers) with a symbolic int leaf and a "
-               "string leaf from a menu of 3")
+               "shapes 0-5 everywhere; 4 SecurityOptions configurations; round trip of 10 object graphs "
+               "(shared list, list cycle, instance cycle, nested containers; shared FALSY nodes: empty list, empty "
+               "dict, empty tuple, empty set, allowed instance with len 0, falsy instance on a cycle) with a "
+               "symbolic int leaf and a string leaf from a menu of 3; identity sharing checked and no crefutil "
+               "placeholder may remain")
 OUTSIDE = ["names outside the menu, in particular names that reach a forbidden object *through* an allowed module "
            "(e.g. function 'allowedmod.os' when allowedmod does 'import os'): _unjelly_function resolves any "
            "attribute path below an allowed module by design",
@@ -96,10 +98,16 @@ def _mkmod():
             INSTANTIATED.append(cls)
             return object.__new__(cls)
 
+    class Bag:
+        """allowed (round trip only) container class that is falsy while its items list is empty"""
+
+        def __len__(self):
+            return len(self.__dict__.get("items", ()))
+
     def func():
         return 3
 
-    for o in (Allowed, Hidden, Reg, func, Allowed.meth, Hidden.meth):
+    for o in (Allowed, Hidden, Reg, Bag, func, Allowed.meth, Hidden.meth):
         o.__module__ = MODNAME
         o.__qualname__ = o.__name__
         setattr(m, o.__name__, o)
@@ -109,7 +117,7 @@ def _mkmod():
 
 
 MOD = _mkmod()
-Allowed, Hidden, Reg, func = MOD.Allowed, MOD.Hidden, MOD.Reg, MOD.func
+Allowed, Hidden, Reg, Bag, func = MOD.Allowed, MOD.Hidden, MOD.Reg, MOD.Bag, MOD.func
 
 PKG = "vc45pkg"
 
@@ -429,14 +437,83 @@ def policy(cfg: int, shape: int, tg: List[int], nm: List[int]) -> bool:
 STRS = ["", "k", "\u00e9\u20ac"]
 
 
+def _no_placeholder(x, seen=None):
+    """no unresolved crefutil placeholder (NotKnown: _Dereference, _Tuple, ...) anywhere in the graph"""
+    seen = [] if seen is None else seen
+    if any(x is y for y in seen):
+        return True
+    if isinstance(x, crefutil.NotKnown):
+        return False
+    if type(x) in (list, tuple, set, frozenset):
+        seen.append(x)
+        return all(_no_placeholder(y, seen) for y in x)
+    if type(x) is dict:
+        seen.append(x)
+        return all(_no_placeholder(k, seen) and _no_placeholder(v, seen) for k, v in x.items())
+    if type(x) in (Allowed, Bag):
+        seen.append(x)
+        return _no_placeholder(x.__dict__, seen)
+    return True
+
+
+def _same(objs):
+    return all(o is objs[0] for o in objs)
+
+
 def roundtrip(g: int, x: int, si: int) -> bool:
     """
-    pre: 0 <= g <= 3
+    pre: 0 <= g <= 9
     post: _
     """
-    g = _conc(g, 4)
+    g = _conc(g, 10)
     s = STRS[_conc(si, len(STRS))]
     taster = _taster(0)
+    if g >= 4:
+        # shared / cyclic nodes that are FALSY: every later reference must still be the same object
+        taster.allowInstancesOf(Bag)
+        if g == 4:      # empty list, referenced four times
+            e = []
+            r = J.unjelly(J.jelly([e, e, {"k": e}, (e,)]), taster)
+            cover()
+            return (_no_placeholder(r) and type(r) is list and len(r) == 4 and type(r[0]) is list and r[0] == []
+                    and type(r[2]) is dict and type(r[3]) is tuple and _same([r[0], r[1], r[2]["k"], r[3][0]]))
+        if g == 5:      # empty dict, referenced three times
+            e = {}
+            r = J.unjelly(J.jelly([e, [x, e], e]), taster)
+            cover()
+            return (_no_placeholder(r) and type(r) is list and len(r) == 3 and type(r[0]) is dict and r[0] == {}
+                    and type(r[1]) is list and r[1][0] == x and _same([r[0], r[1][1], r[2]]))
+        if g == 6:      # the empty tuple, referenced three times
+            e = ()
+            r = J.unjelly(J.jelly([e, [e], e, s]), taster)
+            cover()
+            return (_no_placeholder(r) and type(r) is list and len(r) == 4 and r[0] == () and type(r[0]) is tuple
+                    and type(r[1]) is list and _same([r[0], r[1][0], r[2]]) and r[3] == s)
+        if g == 7:      # empty set, referenced twice
+            e = set()
+            r = J.unjelly(J.jelly([e, e]), taster)
+            cover()
+            return (_no_placeholder(r) and type(r) is list and len(r) == 2 and type(r[0]) is set and r[0] == set()
+                    and r[0] is r[1])
+        if g == 8:      # allowed instance that is falsy (len 0), referenced three times
+            b = Bag()
+            b.items = []
+            b.tag = x
+            r = J.unjelly(J.jelly([b, (b,), b], taster), taster)
+            cover()
+            return (_no_placeholder(r) and type(r) is list and len(r) == 3 and type(r[0]) is Bag
+                    and type(r[1]) is tuple and _same([r[0], r[1][0], r[2]]) and r[0].items == []
+                    and r[0].tag == x and sorted(r[0].__dict__) == ["items", "tag"])
+        # falsy instance on a cycle through itself and its own (empty, shared) items list
+        b = Bag()
+        b.items = []
+        b.me = b
+        b.also = b.items
+        r = J.unjelly(J.jelly([b, b, b.items], taster), taster)
+        cover()
+        return (_no_placeholder(r) and type(r) is list and len(r) == 3 and type(r[0]) is Bag and r[0] is r[1]
+                and r[0].me is r[0] and type(r[0].items) is list and r[0].items == []
+                and _same([r[0].items, r[0].also, r[2]]) and sorted(r[0].__dict__) == ["also", "items", "me"])
     if g == 0:      # shared reference
         a = [x, s]
         top = [a, a, {"k": a}, (a,)]
